@@ -157,7 +157,7 @@ C09_OnlyScopeTouched ==
 C10_CleanMovesToCache ==
   (AtRet("clean") /\ ev.verdict = "cleaned") =>
      \A p \in Scope : /\ ~Has(ws, p)
-                      /\ Has(Pre.ws, p) => \E n \in DOMAIN cache : cache[n].c = Pre.ws[p].c
+                      /\ Has(Pre.ws, p) => \E n \in DOMAIN cache : cache[n].c = Pre.ws[p].c /\ (Distinct => n = Pre.ws[p].c)   \* and, the cache being content-addressed, under its own name
 C10_BuildBringsBack ==
   (AtRet("build") /\ UtdScope /\ ~InPlace) => RestoredContent /\ (PairwiseDifferent => (RestoredAsBefore /\ g.execs = {}))
 
